@@ -63,15 +63,62 @@ func aggrsFor(f string) []storepb.Aggr {
 	return []storepb.Aggr{storepb.Aggr_COUNT, storepb.Aggr_SUM}
 }
 
-// newDedupIterator runs the real seam: promSeriesSet -> dedup.NewSeriesSet(penalty) -> the single series' iterator.
-// ok=false when the set does not yield exactly one series.
-func newDedupIterator(chks []storepb.AggrChunk, f string) (chunkenc.Iterator, storage.SeriesSet, bool) {
+// budget is a step budget shared by all replica iterators of one reader: every Next/Seek the code under test
+// issues on a replica iterator costs one step; running out panics with errBudget (a loop that never ends on a
+// broken tree becomes a recoverable panic, no wall clock involved).
+type budget struct{ left int }
+
+type errBudget struct{}
+
+func (b *budget) step() {
+	b.left--
+	if b.left < 0 {
+		panic(errBudget{})
+	}
+}
+
+// The b* types are transparent delegates around the production series set / series / iterators.
+type bSet struct {
+	storage.SeriesSet
+	b *budget
+}
+
+func (s bSet) At() storage.Series { return bSeries{Series: s.SeriesSet.At(), b: s.b} }
+
+type bSeries struct {
+	storage.Series
+	b *budget
+}
+
+func (s bSeries) Iterator(it chunkenc.Iterator) chunkenc.Iterator {
+	return &bIter{Iterator: s.Series.Iterator(it), b: s.b}
+}
+
+type bIter struct {
+	chunkenc.Iterator
+	b *budget
+}
+
+func (i *bIter) Next() chunkenc.ValueType        { i.b.step(); return i.Iterator.Next() }
+func (i *bIter) Seek(t int64) chunkenc.ValueType { i.b.step(); return i.Iterator.Seek(t) }
+
+// newDedupSeries runs the real seam: promSeriesSet -> dedup.NewSeriesSet(penalty) -> the single merged series.
+// Every Iterator(nil) call on it builds fresh production replica iterators (chunkSeries.Iterator decodes the chunk
+// bytes anew), so one series serves all readers of a case. ok=false when the set yields no series.
+func newDedupSeries(chks []storepb.AggrChunk, f string, b *budget) (storage.Series, storage.SeriesSet, bool) {
 	in := query.NewPromSeriesSet(&pbSet{lset: seriesLset, chks: chks}, math.MinInt64, math.MaxInt64, aggrsFor(f), nil)
-	set := dedup.NewSeriesSet(in, f, dedup.AlgorithmPenalty)
+	set := dedup.NewSeriesSet(bSet{SeriesSet: in, b: b}, f, dedup.AlgorithmPenalty)
 	if !set.Next() {
 		return nil, set, false
 	}
-	return set.At().Iterator(nil), set, true
+	return set.At(), set, true
+}
+
+// guarded runs fn (calls into the code under test); a panic of the code under test is returned, not propagated.
+func guarded(fn func()) (p any) {
+	defer func() { p = recover() }()
+	fn()
+	return nil
 }
 
 // drain reads the iterator with Next only.
